@@ -815,7 +815,33 @@ type cliResult struct {
 	err            error // spawn problems only
 }
 
+
+// staleOutputs: every second tool invocation finds a LONGER stale file already sitting at its
+// "-o" path (left over from an earlier run): tools must replace it, not overwrite its beginning.
+var staleCounter int
+
+func plantStaleOutput(dir string, args []string) {
+	for i := 0; i+1 < len(args); i++ {
+		if args[i] != "-o" || args[i+1] == "-" {
+			continue
+		}
+		p := args[i+1]
+		if !filepath.IsAbs(p) {
+			p = filepath.Join(dir, p)
+		}
+		if _, err := os.Stat(p); err == nil {
+			continue // the case itself put a file there
+		}
+		staleCounter++
+		if staleCounter%2 == 0 {
+			stale := bytes.Repeat([]byte("STALE-OUTPUT-FROM-AN-EARLIER-RUN "), 4096) // 132 KiB, ends with junk (not a valid length field)
+			os.WriteFile(p, stale, 0o644)
+		}
+	}
+}
+
 func runCLI(dir string, args ...string) cliResult {
+	plantStaleOutput(dir, args)
 	bin := filepath.Join(os.Getenv("VERIF_CLI"), "sign-bundle")
 	ctx, cancel := context.WithTimeout(context.Background(), 120*time.Second)
 	defer cancel()
